@@ -99,7 +99,7 @@ cdef class cyDiscreteQuadraticModel:
         cdef bias_type bias
         cdef LinearTerm term
         for v, case_v, bias in terms:
-            if case_v >= self.num_cases(v):  # also checks variable
+            if case_v >= self.num_cases(v) or case_v < 0:  # also checks variable
                 raise ValueError("case out of range")
 
             term.variable = v
